@@ -28,8 +28,15 @@ def receivePath (w : Wait) : Bool :=
 def slotWait (w : Wait) : Bool :=
   w.kind == "acquire" || w.fn == "LimitParallelRequests.acquireEndpoint"
 
+/-- the queue-draining goroutine is not run by the socket reader: it may wait for the END of the shutdown (`cc.Done()`,
+    class `conndone`), which comes once the reader has returned.  Every other wait that listened to `conndone` instead of
+    the connection's context could outlive `Close()` for as long as the reader stays in its read - and inside the reader
+    itself (`Process`, `pushToReceivedMessageQueue`) it would wait for its own return. -/
+def drainLoop (w : Wait) : Bool := w.fn == "ReceivedMessageReader.loop"
+
 def waitOK (w : Wait) : Bool :=
-  covered w || (receivePath w && w.cases.contains "connctx") || (slotWait w && w.cases.contains "reqctx")
+  covered w || (receivePath w && (w.cases.contains "connctx" || (drainLoop w && w.cases.contains "conndone"))) ||
+  (slotWait w && w.cases.contains "reqctx")
 
 structure Signals where
   reqCancelled : Bool
